@@ -6,6 +6,8 @@ mod prng;
 mod c07;
 mod c01;
 mod c02;
+mod c08;
+mod c12;
 mod cli;
 mod ledger;
 
@@ -69,6 +71,8 @@ fn main() {
         "c01" => c01::run(&o),
         "c02" => c02::run(&o, "C02"),
         "c03" => c02::run(&o, "C03"),
+        "c08" => c08::run(&o),
+        "c12" => c12::run(&o),
         _ => {
             eprintln!("unknown property {}", prop);
             std::process::exit(2);
